@@ -335,6 +335,21 @@ impl World {
         list(st.versions.iter().map(|v| list(self.parse_version(&v.2))).collect())
     }
 
+    /// independent replay of the chain up to and including a version; None if it is not on the chain
+    pub fn replay_upto(&self, version: taskchampion::server::VersionId) -> Option<Tasks> {
+        let st = self.chain.borrow();
+        let mut t = Tasks::new();
+        for v in st.versions.iter() {
+            for o in parse_version_ops(&self.pools, &v.2) {
+                apply_shadow(&mut t, &o);
+            }
+            if v.0 == version {
+                return Some(t);
+            }
+        }
+        None
+    }
+
     /// independent replay of the chain from the empty task set
     pub fn replay_chain(&self) -> Tasks {
         let st = self.chain.borrow();
@@ -644,6 +659,10 @@ pub struct Runner {
     pub f_steps: usize,
     pub f_foreign: usize,
     cur_sync_pulled: Vec<usize>,
+    /// operations committed and not yet sent, per replica, when that is known exactly
+    unsent: Vec<Option<Vec<SOp>>>,
+    /// chain length when the running sync started
+    cur_sync_start_len: Vec<usize>,
     cur_sync_pushed: Vec<usize>,
     cur_sync_pending: Vec<usize>,
 }
@@ -667,6 +686,8 @@ impl Runner {
             f_steps: 0,
             f_foreign: 0,
             cur_sync_pulled: vec![0; n],
+            unsent: vec![Some(vec![]); n],
+            cur_sync_start_len: vec![0; n],
             cur_sync_pushed: vec![0; n],
             cur_sync_pending: vec![0; n],
         }
@@ -691,6 +712,7 @@ impl Runner {
         self.cur_sync_pending[i] = self.w.num_local(i);
         self.cur_sync_pulled[i] = 0;
         self.cur_sync_pushed[i] = 0;
+        self.cur_sync_start_len[i] = self.w.chain.borrow().versions.len();
         self.f_syncs += 1;
         self.ev(ctor("EStart", vec![nat(i), b(avoid), b(wst)]));
         let waiting = !self.w.start(i, avoid);
@@ -712,6 +734,24 @@ impl Runner {
                     self.problems.push(format!("replica {i}: {nl} local operations left after a successful sync"));
                 }
             }
+        }
+        // direct oracle (C14): a sync that pulled nothing sends exactly what was committed since the
+        // last one, undo points aside, in order
+        if expect_result && r.is_ok() {
+            if self.cur_sync_pulled[i] == 0 {
+                if let Some(want) = self.unsent[i].clone() {
+                    let got: Vec<SOp> = {
+                        let st = self.w.chain.borrow();
+                        st.versions.iter().skip(self.cur_sync_start_len[i]).flat_map(|v| parse_version_ops(&self.w.pools, &v.2)).collect()
+                    };
+                    if got != want {
+                        self.problems.push(format!("replica {i} had committed {:?} since its last sync and met no other version, but sent {:?}", want, got));
+                    }
+                }
+            }
+            self.unsent[i] = Some(vec![]);
+        } else {
+            self.unsent[i] = None;
         }
         if self.cur_sync_pulled[i] > 0 && self.cur_sync_pending[i] > 0 {
             self.f_concurrent_syncs += 1;
@@ -761,7 +801,20 @@ impl Runner {
                         self.f_rejections += 1;
                     }
                 }
-                Req::AddSnapshot(..) => self.f_snapshots += 1,
+                Req::AddSnapshot(v, snap) => {
+                    self.f_snapshots += 1;
+                    // direct oracle: a snapshot holds exactly the state of its version
+                    let got = self.w.decode_snapshot(snap);
+                    match self.w.replay_upto(*v) {
+                        Some(want) => {
+                            if got != want {
+                                self.problems.push(format!("replica {i} uploaded a snapshot for version {:?} holding {:?}; the chain up to that version replays to {:?}",
+                                    self.w.chain.borrow().vnum(*v), got, want));
+                            }
+                        }
+                        None => self.problems.push(format!("replica {i} uploaded a snapshot for a version that is not on the chain")),
+                    }
+                }
                 _ => {}
             }
             if let Some(r) = r {
@@ -786,6 +839,9 @@ impl Runner {
                         SOp::Update(..) => 2,
                         SOp::Undo => 3,
                     }] += 1;
+                }
+                if let Some(u) = self.unsent[*i].as_mut() {
+                    u.extend(ops.iter().filter(|o| !matches!(o, SOp::Undo)).cloned());
                 }
                 let lits = self.w.commit(*i, ops);
                 self.ev(ctor("ECommit", vec![nat(*i), list(lits)]));
@@ -1457,8 +1513,30 @@ pub fn gen_snap(seed: u64, id: usize, max_actions: usize) -> CaseOut {
             if !ops.is_empty() {
                 r.perform(&Action::Commit(i, ops));
             }
-        } else {
+        } else if rng.chance(60) {
             r.perform(&Action::Sync(i, rng.chance(30), rng.below(3) as u8));
+        } else {
+            // a sync advanced request by request: every reply carries its own urgency, and other
+            // replicas commit and synchronise in between (their versions land between this
+            // replica's push and its next pull)
+            r.perform(&Action::Start(i, rng.chance(20)));
+            let mut guard = 0;
+            while r.w.in_flight(i) && guard < 60 {
+                guard += 1;
+                if rng.chance(25) {
+                    let j = rng.below(n - 1);
+                    if j != i && !r.w.in_flight(j) {
+                        let cur = r.w.tasks(j);
+                        let ops = g.batch(&cur, 2, 0);
+                        if !ops.is_empty() {
+                            r.perform(&Action::Commit(j, ops));
+                        }
+                        r.perform(&Action::Sync(j, false, 0));
+                    }
+                }
+                let u = if rng.chance(50) { 0 } else { rng.below(3) as u8 };
+                r.perform(&Action::Step(i, u));
+            }
         }
     }
     r.perform(&Action::Sync(late, false, 0));
